@@ -21,7 +21,7 @@ def run_monitor(case):
     if xs < 0.08:
         n = (10, 16, 17, 32, 33, 40, 65, 70)[int(xs / 0.08 * 8)]      # maps beyond one byte / one word / 64 sources
     modes = [rnd.choice(["level", "rise", "fall"]) for _ in range(n)]
-    em = event.EventMap()
+    em = simutil.mk_event_map(lib.rng_for(case["seed"], case["idx"], 1352))
     us_ = lib.rng_for(case["seed"], case["idx"], 1351)
     srcs = [simutil.mk_source(m, us_) for m in modes]
     order = list(range(n))
